@@ -313,8 +313,9 @@ fn creation_options(q: &Value) -> webauthn::CredentialCreationOptions {
                 name: utf8(&q["user"]["name"]),
             },
             challenge: unhex(q["challenge"].as_str().unwrap()).into(),
-            pub_key_cred_params: q["params"].as_array().unwrap().iter().map(|a| webauthn::PublicKeyCredentialParameters {
-                ty: webauthn::PublicKeyCredentialType::PublicKey,
+            // optional "params_ty": parallel list, false = an entry whose `type` is not "public-key" (deserialises to Unknown)
+            pub_key_cred_params: q["params"].as_array().unwrap().iter().enumerate().map(|(i, a)| webauthn::PublicKeyCredentialParameters {
+                ty: if q["params_ty"][i].as_bool().unwrap_or(true) { webauthn::PublicKeyCredentialType::PublicKey } else { webauthn::PublicKeyCredentialType::Unknown },
                 alg: iana::Algorithm::from_i64(a.as_i64().unwrap()).expect("known algorithm id"),
             }).collect(),
             timeout: None,
